@@ -622,7 +622,11 @@ def pc_fields(ev, t):
 
 
 def smc_ev(ctx):
-    return mk_ev(ctx, inline={SMC + "_create_particle_collection"}, depth=4)
+    ev = mk_ev(ctx, inline={SMC + "_create_particle_collection"}, depth=4)
+    # `particles` is a ParticleCollection in every SMC move: its concrete accessors (log_marginal_likelihood(), effective_sample_size(), ...)
+    # are inlined, so `particles.log_marginal_likelihood()` and the spelled-out formula are one term
+    ev.param_class["particles"] = SMC + "ParticleCollection"
+    return ev
 
 
 def pc_nonnull_axiom(x):
